@@ -1,14 +1,16 @@
 import PsVerif.Proofs.EexecStream
+import PsVerif.Proofs.EexecInterp
 /-!
-# C05 — the byte stream underneath `eexec`
+# C05 — `eexec`: byte stream, tokens, interpreter
 
 Property C05: executing a program whose tail is eexec-encrypted (hexadecimal with interior white space, or binary,
 any legal four-byte random prefix, any length) has exactly the effect of executing the plaintext with systemdict
 pushed; when the encrypted part closes its file, decryption stops and the clear text that follows is executed
 normally; binary data read with `readstring` inside the section is delivered byte-exact.
 
-This file states the scanner-level theorems (model: `Model/Scanner.lean`, `Model/Cipher.lean`), for ALL plaintexts,
-prefixes and layouts, no length bound. Proofs are in `Proofs/EexecStream.lean`.
+This file states the theorems on the model (`Model/Scanner.lean`, `Model/Cipher.lean`, `Model/Interp.lean`), for ALL
+plaintexts, prefixes and layouts, no length bound. Proofs are in `Proofs/EexecStream.lean` (bytes, tokens) and
+`Proofs/EexecInterp.lean` (interpreter).
 
 ## Legality conditions (read off `BeginEexec`, and exact: see the negative examples at the end)
 
@@ -39,12 +41,43 @@ prefixes and layouts, no length bound. Proofs are in `Proofs/EexecStream.lean`.
    buffer (the delimiter after `closefile`) are delivered first, then `rest`, in clear.
 4. `eexec_peek_past_end_binary`: what a look-ahead past the end of the plaintext does (see FINDING below).
 
-## Missing for the full C05
+5. `eexec_sim_scanToken`: `scanToken` as a whole (and `skipWhiteSpace`, `readString`, `readHexString`,
+   `readBase85String`, `readStructuredComment`, `skipComment`) is in `SimM`, although the loop fuel `fuelOf s` is
+   computed from the length of the RAW source and so differs between the two sides: `eexec_fuel_independent` shows
+   that on clear scanners the result of each loop does not depend on its fuel once the fuel exceeds the number of
+   bytes left to read (every iteration consumes a byte).
+6. Interpreter level, `eexec_operator_binary`, `eexec_operator_hex` (from `eexec_interp_sim`, a simultaneous
+   induction over the thirteen functions of the interpreter's mutual block): the operator `eexec`, called with `.file`
+   on the operand stack and a legal section pending, returns `closeSection k bF rF seF` where `(bF, rF)` is the
+   outcome of the nested scan loop `scanRun` on the PLAIN state (`.file` popped, systemdict pushed, plain scanner
+   over the plaintext at the same position): the result is `rF` (`ok` if the section was closed: `rF = ok` or
+   `err eof`, which is what `closefile` returns); every field of the interpreter state except the scanner and the
+   dictionary stack is that of `bF` (operand stack, heap, `numOps`, `execDepth`, `errors`, `procStart`,
+   `scannerDepth`, DSC comments, ghost high-water marks); the dictionary stack is cut back to its height `k` before
+   the operator (`truncDictStack`); the scanner `seF` is `Sim`-related to the plain run's final scanner: equal peek
+   buffer, line, column, `crSeen`, DSC, sticky error, fault; its raw source is the layout of the cipher bytes not
+   yet consumed followed by `rest`. `eexec_closed_at_end`: if every plaintext byte has been decrypted the scanner is
+   the plain one with `src := rest` (and some cipher register): the clear text is executed next, normally.
+   Hypothesis `Safe`: the plain run evaluates no `Bad` call, i.e. (a) it never calls the `eexec` operator (see
+   FINDING 2), (b) its scanner never runs into the end of the plaintext (`scanToken`, the start check and
+   `readstring` never hit the end: the plaintext closes the file before it ends). (a) is slightly stronger than
+   needed: an `eexec` call that fails the same way on both sides (operand not a file) is excluded as well.
 
-* `scanToken`/`skipWhiteSpace` as a whole: they compute loop fuel from `fuelOf s` (length of the RAW source), which
-  differs between the two sides; needed in addition: each loop's result does not depend on the fuel once it is
-  large enough. All their loops are covered at equal fuel (item 2).
-* the interpreter level (`Model/Interp.lean`: systemdict pushed, nested `scanRun`, dictionary stack restored).
+## Missing
+
+* discharging `Safe` from a syntactic condition on the plaintext ("ends with `currentfile closefile` + delimiter and
+  never mentions `eexec`") needs facts about the particular program run; it is a hypothesis here. Non-vacuity:
+  `exSafe` (a run ending in `undefined`) and `exSafe3` (`currentfile closefile\n`: the section is closed, the
+  dictionary stack restored, the clear text continues) below, proved by walking the call tree with
+  `Safe.intro`, `safe_op_token`, `safe_pure_call`.
+* the start state is the one at the call of the operator; the top-level `execute` wrapper is not restated.
+
+## FINDING 2 (documented limit of the code, outside the generator's domain; confirmed on the Go code)
+
+A plaintext that itself executes `currentfile eexec …` is refused inside an encrypted section (`invalidaccess:
+nested eexec not supported`) but runs when executed as plaintext (Go: encrypted → that error, `a` undefined;
+`systemdict begin … end` → `a=1 b=2`). C05 as a statement about ALL plaintexts is false for these; `Bad` excludes
+them.
 
 ## FINDING (boundary of the property; confirmed on the Go code)
 
@@ -59,7 +92,7 @@ fonts always encrypt the newline after `closefile`; the harness generator does t
 require nothing about where the plaintext ends, and `eexec_peek_past_end_binary` says exactly what happens there.
 -/
 namespace PsVerif.Props.C05
-open PsVerif.Model PsVerif.Model.Scan PsVerif.Model.Cipher PsVerif.Proofs.EexecStream
+open PsVerif.Model PsVerif.Model.Scan PsVerif.Model.Cipher PsVerif.Proofs.EexecStream PsVerif.Proofs.EexecInterp
 
 /-- **C05, byte stream, binary form.** -/
 theorem eexec_stream_binary (s0 : Scanner) (ws pre plain rest : List UInt8) (hc : Clear s0)
@@ -160,6 +193,91 @@ theorem eexec_peek_past_end_binary {cipher rest : List UInt8} {se sp : Scanner} 
       { se with peek := [b ^^^ keyByte se.r], src := rest', r := nextR se.r b }) :=
   h.peek_past_end_binary hpk hend b rest' hr
 
+/-! ## Token level -/
+
+/-- **C05, tokens**: `ScanToken` and its parts cannot tell an eexec section from its plaintext -/
+theorem eexec_sim_scanToken :
+    SimM scanToken ∧ (∀ fuel, SimM (skipWhiteSpace fuel)) ∧ SimM readString ∧ SimM readHexString ∧
+    SimM readBase85String ∧ SimM readStructuredComment ∧ SimM skipComment ∧
+    (∀ fuel acc, SimM (readCommentValue fuel acc)) :=
+  ⟨SimM.scanToken, SimM.skipWhiteSpace, SimM.readString, SimM.readHexString, SimM.readBase85String,
+   SimM.readStructuredComment, SimM.skipComment, SimM.readCommentValue⟩
+
+/-- **fuel independence**: on clear scanners with at most `n` bytes left (`CL n`: eexec off, no replay,
+`peek.length + src.length ≤ n`) every loop of the tokenizer returns the same result and state for all fuels `> n` -/
+theorem eexec_fuel_independent (n f f' : Nat) (hf : n < f) (hf' : n < f') :
+    AgreeOn (CL n) (skipWhiteSpace f) (skipWhiteSpace f') ∧
+    (∀ acc, AgreeOn (CL n) (readRegular f acc) (readRegular f' acc)) ∧
+    (∀ res level ign, AgreeOn (CL n) (readStringBody f res level ign) (readStringBody f' res level ign)) ∧
+    (∀ res first hi, AgreeOn (CL n) (readHexBody f res first hi) (readHexBody f' res first hi)) ∧
+    (∀ res pos val, AgreeOn (CL n) (readA85Body f res pos val) (readA85Body f' res pos val)) ∧
+    AgreeOn (CL n) (skipToEOL f) (skipToEOL f') ∧
+    (∀ acc, AgreeOn (CL n) (readLine f acc) (readLine f' acc)) ∧
+    AgreeOn (CL n) (skipBlanks f) (skipBlanks f') ∧
+    (∀ acc, AgreeOn (CL n) (readCommentKey f acc) (readCommentKey f' acc)) ∧
+    (∀ acc, AgreeOn (CL n) (readCommentValue f acc) (readCommentValue f' acc)) :=
+  ⟨FI.skipWhiteSpace n f f' hf hf', FI.readRegular n f f' hf hf', FI.readStringBody n f f' hf hf',
+   FI.readHexBody n f f' hf hf', FI.readA85Body n f f' hf hf', FI.skipToEOL n f f' hf hf', FI.readLine n f f' hf hf',
+   FI.skipBlanks n f f' hf hf', FI.readCommentKey n f f' hf hf', FI.readCommentValue n f f' hf hf'⟩
+
+/-! ## Interpreter level -/
+
+/-- **C05, interpreter**: every function of the interpreter's mutual block, run on states that differ only in
+`Sim`-related scanners, returns the same result and states that again differ only in `Sim`-related scanners, as
+long as the plain run evaluates no `Bad` call (`AllSim` lists the thirteen statements) -/
+theorem eexec_interp_sim (mode : Nat) (cipher rest : List UInt8) (m fuel : Nat) : AllSim mode cipher rest fuel m :=
+  allSim m fuel
+
+/-- **C05 on the model, binary sections** (see item 6 of the header for the reading) -/
+theorem eexec_operator_binary (fuel m : Nat) (a0 : State) (st : List Obj) (ws pre plain rest : List UInt8)
+    (hst : a0.vm.stack = .file :: st) (hdepth : a0.scannerDepth ≠ 0)
+    (hc : Clear a0.scanner) (hpk : a0.scanner.peek.length ≤ 4) (hpre : pre.length = 4)
+    (hws : ∀ x ∈ ws, isEexecSpace x = true)
+    (hlegal : BinaryLegal (encrypt eexecR (pre ++ plain)))
+    (hs : a0.scanner.peek ++ a0.scanner.src = ws ++ binaryLayout (encrypt eexecR (pre ++ plain)) ++ rest)
+    (hsafe : Safe (.sRun fuel m (plainState a0 st
+      (plainStart a0.scanner (ws ++ pre) (stateAfter eexecR ((encrypt eexecR (pre ++ plain)).take 4)) plain)))) :
+    ∃ seF, Sim 2 (encrypt eexecR (pre ++ plain)) rest seF
+        (scanRun fuel m (plainState a0 st
+          (plainStart a0.scanner (ws ++ pre) (stateAfter eexecR ((encrypt eexecR (pre ++ plain)).take 4)) plain))).1.scanner ∧
+      callBuiltin (fuel + 1) m a0 "eexec" =
+        closeSection a0.vm.dictStack.length
+          (scanRun fuel m (plainState a0 st
+            (plainStart a0.scanner (ws ++ pre) (stateAfter eexecR ((encrypt eexecR (pre ++ plain)).take 4)) plain))).1
+          (scanRun fuel m (plainState a0 st
+            (plainStart a0.scanner (ws ++ pre) (stateAfter eexecR ((encrypt eexecR (pre ++ plain)).take 4)) plain))).2
+          seF :=
+  PsVerif.Proofs.EexecInterp.eexec_operator_binary fuel m a0 st ws pre plain rest hst hdepth hc hpk hpre hws hlegal hs hsafe
+
+/-- **C05 on the model, hexadecimal sections** -/
+theorem eexec_operator_hex (fuel m : Nat) (a0 : State) (st : List Obj) (ws pre plain t rest : List UInt8)
+    (hst : a0.vm.stack = .file :: st) (hdepth : a0.scannerDepth ≠ 0)
+    (hc : Clear a0.scanner) (hpk : a0.scanner.peek.length ≤ 4) (hpre : pre.length = 4)
+    (hws : ∀ x ∈ ws, isEexecSpace x = true)
+    (hlay : HexLayout (encrypt eexecR (pre ++ plain)) t)
+    (hs : a0.scanner.peek ++ a0.scanner.src = ws ++ t ++ rest)
+    (hsafe : Safe (.sRun fuel m (plainState a0 st
+      (plainStart a0.scanner (ws ++ pre) (stateAfter eexecR ((encrypt eexecR (pre ++ plain)).take 4)) plain)))) :
+    ∃ seF, Sim 1 (encrypt eexecR (pre ++ plain)) rest seF
+        (scanRun fuel m (plainState a0 st
+          (plainStart a0.scanner (ws ++ pre) (stateAfter eexecR ((encrypt eexecR (pre ++ plain)).take 4)) plain))).1.scanner ∧
+      callBuiltin (fuel + 1) m a0 "eexec" =
+        closeSection a0.vm.dictStack.length
+          (scanRun fuel m (plainState a0 st
+            (plainStart a0.scanner (ws ++ pre) (stateAfter eexecR ((encrypt eexecR (pre ++ plain)).take 4)) plain))).1
+          (scanRun fuel m (plainState a0 st
+            (plainStart a0.scanner (ws ++ pre) (stateAfter eexecR ((encrypt eexecR (pre ++ plain)).take 4)) plain))).2
+          seF :=
+  PsVerif.Proofs.EexecInterp.eexec_operator_hex fuel m a0 st ws pre plain t rest hst hdepth hc hpk hpre hws hlay hs hsafe
+
+/-- **C05, after the section**: closed section, plaintext decrypted completely: result `ok`, the state of the plain
+run with the dictionary stack cut back and the scanner continued with the clear text `rest` -/
+theorem eexec_closed_at_end {mode : Nat} {cipher rest : List UInt8} {k : Nat} {bF : State} {rF : Res} {seF : Scanner}
+    (h : Sim mode cipher rest seF bF.scanner) (hend : bF.scanner.src = []) (hr : rF = .ok ∨ rF = .err .eof) :
+    closeSection k bF rF seF =
+      okS { bF with vm := truncDictStack bF.vm k, scanner := { bF.scanner with src := rest, r := seF.r } } :=
+  closeSection_at_end h hend hr
+
 /-! ## Non-vacuity: a concrete plaintext, prefix and layouts -/
 
 /-- random prefix `58 00 00 00` -/
@@ -256,6 +374,208 @@ example : (match (beginEexec >>= fun _ => readN 3 [] >>= fun _ => Scan.peek)
     | (.error (.other _), s) => s.src == exRest.drop 3
     | _ => false) = true := by decide +kernel
 
+/-! ## Non-vacuity of the interpreter-level theorem
+
+A run of the nested scan loop that is `Safe`: plaintext `x␣` (an undefined name) in an interpreter whose system
+dictionary is empty; the call tree `scanRun → scanLoop → execOne → execBody → execTail` is walked explicitly. -/
+
+def exPlain2 : List UInt8 := [120, 32]
+def exVM : VM := { stack := [Obj.file], roots := (default : Roots) }
+def exSc : Scanner := { peek := [10], src := encrypt eexecR (exPre ++ exPlain2) ++ [10, 55] }
+def exA0 : State := { vm := exVM, scanner := exSc, scannerDepth := 1 }
+def exB0 : State := plainState exA0 []
+  (plainStart exA0.scanner ([10] ++ exPre) (stateAfter eexecR ((encrypt eexecR (exPre ++ exPlain2)).take 4)) exPlain2)
+
+theorem exSafe : Safe (.sRun (4 + 1) 0 exB0) := by
+  refine Safe.intro (fun h => by cases h.1) (fun c' h => ?_)
+  cases h with
+  | sRun f m s s1 hst =>
+    have e : scanStart exB0 = (exB0, none) := rfl
+    rw [e] at hst
+    cases hst
+    have etok : withScanner { exB0 with scannerDepth := exB0.scannerDepth + 1 } Scan.scanToken =
+        ((withScanner { exB0 with scannerDepth := exB0.scannerDepth + 1 } Scan.scanToken).1,
+          .ok (.obj (.op (Scan.bytesToString [120])))) := rfl
+    refine Safe.intro (fun h => by cases h.2.2.2) (fun c' h => ?_)
+    cases h with
+    | sLoop_next f m s s1 tok s3 hw hx =>
+      rw [etok] at hw
+      cases hw
+      have : (execOne 3 0 (objOfTok (withScanner { exB0 with scannerDepth := exB0.scannerDepth + 1 } Scan.scanToken).1
+        (.obj (.op (Scan.bytesToString [120])))).1 (.op (Scan.bytesToString [120])) false).2 = .err (.ps "undefined") := by
+        decide +kernel
+      have h3 := congrArg Prod.snd hx
+      have h5 : Res.ok = Res.err (.ps "undefined") := h3.symm.trans this
+      cases h5
+    | sLoop_one f m s s1 tok hw =>
+      rw [etok] at hw
+      cases hw
+      refine Safe.intro (fun h => h) (fun c' h => ?_)
+      cases h with
+      | one_f =>
+        refine Safe.intro (fun h => h) (fun c' h => ?_)
+        cases h with
+        | body =>
+          refine Safe.intro (fun h => h) (fun c' h => ?_)
+          cases h with
+          | tail_name f m s n e c v hv =>
+            have h2 : (none : Option Obj) = some v := hv
+            cases h2
+
+theorem exBinaryLegal2 : BinaryLegal (encrypt eexecR (exPre ++ exPlain2)) := by
+  have e : encrypt eexecR (exPre ++ exPlain2) = [129, 224, 107, 83, 184, 100] := by decide +kernel
+  rw [e]
+  exact ⟨fun b h => by cases h; decide, by decide⟩
+
+/-- all hypotheses of `eexec_operator_binary` hold for this instance -/
+example := eexec_operator_binary 5 0 exA0 [] [10] exPre exPlain2 [10, 55] rfl (by decide) ⟨rfl, rfl⟩ (by decide) rfl
+  (by decide) exBinaryLegal2 rfl exSafe
+
+/-- … and the model computes what the theorem says: the error of the plain run, the dictionary stack cut back,
+the clear text `rest` untouched, the delimiter after `x` still peeked -/
+example : (callBuiltin 6 0 exA0 "eexec").2 = (scanRun 5 0 exB0).2 ∧ (scanRun 5 0 exB0).2 = .err (.ps "undefined") ∧
+    (callBuiltin 6 0 exA0 "eexec").1.vm.dictStack.length = exA0.vm.dictStack.length ∧
+    (callBuiltin 6 0 exA0 "eexec").1.scanner.src = [10, 55] ∧
+    (callBuiltin 6 0 exA0 "eexec").1.scanner.peek = (scanRun 5 0 exB0).1.scanner.peek := by decide +kernel
+
+/-! ### a section that closes its file
+
+plaintext `currentfile closefile\n` in an interpreter whose system dictionary knows these two operators; the run
+is `Safe`, ends with `err eof` (what `closefile` returns) with the whole plaintext decrypted, so the operator returns
+`ok`, the dictionary stack is restored and the scanner continues with the clear text -/
+
+/-- plaintext `currentfile closefile\n` -/
+def exPlain3 : List UInt8 :=
+  [99, 117, 114, 114, 101, 110, 116, 102, 105, 108, 101, 32, 99, 108, 111, 115, 101, 102, 105, 108, 101, 10]
+def exHeap3 : Array Cell := #[.dict [("currentfile", .builtin "currentfile"), ("closefile", .builtin "closefile")]]
+def exVM3 : VM := { stack := [Obj.file], heap := exHeap3, roots := (default : Roots) }
+def exSc3 : Scanner := { peek := [10], src := encrypt eexecR (exPre ++ exPlain3) ++ [10, 55, 32] }
+def exA3 : State := { vm := exVM3, scanner := exSc3, scannerDepth := 1 }
+def exB3 : State := plainState exA3 []
+  (plainStart exA3.scanner ([10] ++ exPre) (stateAfter eexecR ((encrypt eexecR (exPre ++ exPlain3)).take 4)) exPlain3)
+
+abbrev exS0 : State := { exB3 with scannerDepth := exB3.scannerDepth + 1 }
+def exN1 : String := Scan.bytesToString (exPlain3.take 11)
+def exN2 : String := Scan.bytesToString ((exPlain3.drop 12).take 9)
+def exS1 : State := (withScanner exS0 Scan.scanToken).1
+def exS2 : State := (execOne 6 0 exS1 (.op exN1) false).1
+def exS3 : State := (withScanner exS2 Scan.scanToken).1
+
+def isOpTok (r : Except Err Scan.Tok) (n : String) : Bool :=
+  match r with
+  | .ok (.obj (.op k)) => decide (k = n)
+  | _ => false
+
+theorem tok_of_check {r : Except Err Scan.Tok} {n : String} (h : isOpTok r n = true) : r = .ok (.obj (.op n)) := by
+  unfold isOpTok at h
+  split at h
+  · rename_i k
+    have : k = n := by simpa using h
+    rw [this]
+  · cases h
+
+theorem pair_eq {α β : Type} (p : α × β) (b : β) (h : p.2 = b) : p = (p.1, b) := by
+  cases p; cases h; rfl
+
+theorem exTok1 : withScanner exS0 Scan.scanToken = (exS1, .ok (.obj (.op exN1))) :=
+  pair_eq _ _ (tok_of_check (by decide +kernel))
+theorem exRun1 : execOne 6 0 exS1 (.op exN1) false = (exS2, .ok) :=
+  pair_eq _ _ (by decide +kernel)
+theorem exTok2 : withScanner exS2 Scan.scanToken = (exS3, .ok (.obj (.op exN2))) :=
+  pair_eq _ _ (tok_of_check (by decide +kernel))
+
+theorem exLook1 : lookupName exS1.vm exN1 = some (.builtin "currentfile") := by decide +kernel
+theorem exLook2 : lookupName exS3.vm exN2 = some (.builtin "closefile") := by decide +kernel
+theorem exCall1 : (callBuiltin (1 + 1) 0 { exS1 with numOps := exS1.numOps + 1 + 1 } "currentfile").2 = .ok := by
+  decide +kernel
+theorem exCall2 : (callBuiltin (0 + 1) 0 { exS3 with numOps := exS3.numOps + 1 + 1 } "closefile").2 = .err .eof := by
+  decide +kernel
+theorem exRun2 : (execOne 5 0 exS3 (.op exN2) false).2 = .err .eof := by decide +kernel
+theorem exNotExh1 : ¬ exS1.scanner.src = [] := by decide +kernel
+theorem exNotExh3 : ¬ exS3.scanner.err.isSome = true := by decide +kernel
+
+attribute [irreducible] exS1 exS2 exS3 exN1 exN2
+
+theorem exSafeTok1 : Safe (.one (1 + 1 + 1 + 1 + 1 + 1) 0 exS1 (.op exN1) false) :=
+  safe_op_token (f := 1) (s := exS1) (n := exN1) (id := "currentfile") exLook1 (by simp)
+    (fun h => h) (fun s1 name h => by
+      have h2 := congrArg Prod.snd h
+      rw [exCall1] at h2
+      cases h2)
+
+theorem exSafeTok2 : Safe (.one (0 + 1 + 1 + 1 + 1 + 1) 0 exS3 (.op exN2) false) :=
+  safe_op_token (f := 0) (s := exS3) (n := exN2) (id := "closefile") exLook2 (by simp)
+    (fun h => h) (fun s1 name h => by
+      have h2 := congrArg Prod.snd h
+      rw [exCall2] at h2
+      cases h2)
+
+theorem exSafeLoop2 : Safe (.sLoop (5 + 1) 0 exS2) := by
+  refine Safe.intro (fun h => ?_) (fun c' h => ?_)
+  · simp only [Bad] at h
+    rw [exTok2] at h
+    exact absurd h.2.2.2 exNotExh3
+  · cases h with
+    | sLoop_one f m s s1 tok hw =>
+      rw [exTok2] at hw
+      cases hw
+      simp only [objOfTok_obj]
+      exact exSafeTok2
+    | sLoop_next f m s s1 tok s3 hw hx =>
+      rw [exTok2] at hw
+      cases hw
+      simp only [objOfTok_obj] at hx
+      have h2 := congrArg Prod.snd hx
+      have h5 : Res.ok = Res.err .eof := h2.symm.trans exRun2
+      cases h5
+
+theorem exSafeLoop1 : Safe (.sLoop (6 + 1) 0 exS0) := by
+  refine Safe.intro (fun h => ?_) (fun c' h => ?_)
+  · simp only [Bad] at h
+    rw [exTok1] at h
+    exact absurd h.2.2.1 exNotExh1
+  · cases h with
+    | sLoop_one f m s s1 tok hw =>
+      rw [exTok1] at hw
+      cases hw
+      simp only [objOfTok_obj]
+      exact exSafeTok1
+    | sLoop_next f m s s1 tok s3 hw hx =>
+      rw [exTok1] at hw
+      cases hw
+      simp only [objOfTok_obj] at hx
+      have h3 : (s3, Res.ok) = (exS2, Res.ok) := hx.symm.trans exRun1
+      cases h3
+      exact exSafeLoop2
+
+theorem exSafe3 : Safe (.sRun (7 + 1) 0 exB3) := by
+  refine Safe.intro (fun h => by cases h.1) (fun c' h => ?_)
+  cases h with
+  | sRun f m s s1 hst =>
+    have e : scanStart exB3 = (exB3, none) := rfl
+    rw [e] at hst
+    cases hst
+    exact exSafeLoop1
+
+theorem exBinaryLegal3 : BinaryLegal (encrypt eexecR (exPre ++ exPlain3)) := by
+  refine ⟨fun b h => ?_, by decide +kernel⟩
+  have e : (encrypt eexecR (exPre ++ exPlain3)).head? = some 129 := by decide +kernel
+  rw [e] at h
+  cases h
+  decide
+
+/-- the operator on the encrypted section = the plain run, dictionary stack cut back, scanner continued with the
+clear text `\n7␣` (the peeked delimiter `\n` of the plaintext is still in the peek buffer) -/
+example : ∃ seF : Scanner, callBuiltin (8 + 1) 0 exA3 "eexec" =
+    okS { (scanRun 8 0 exB3).1 with
+      vm := truncDictStack (scanRun 8 0 exB3).1.vm exA3.vm.dictStack.length,
+      scanner := { (scanRun 8 0 exB3).1.scanner with src := [10, 55, 32], r := seF.r } } := by
+  obtain ⟨seF, hs, he⟩ := eexec_operator_binary 8 0 exA3 [] [10] exPre exPlain3 [10, 55, 32] rfl (by decide) ⟨rfl, rfl⟩
+    (by decide) rfl (by decide) exBinaryLegal3 rfl exSafe3
+  refine ⟨seF, ?_⟩
+  rw [he]
+  exact eexec_closed_at_end hs (by decide +kernel) (Or.inr (by decide +kernel))
+
 #print axioms eexec_stream_binary
 #print axioms eexec_stream_hex
 #print axioms eexec_sim_ops
@@ -265,5 +585,13 @@ example : (match (beginEexec >>= fun _ => readN 3 [] >>= fun _ => Scan.peek)
 #print axioms eexec_peek_past_end_binary
 #print axioms exHexLayout
 #print axioms exBinaryLegal
+#print axioms eexec_sim_scanToken
+#print axioms eexec_fuel_independent
+#print axioms eexec_interp_sim
+#print axioms eexec_operator_binary
+#print axioms eexec_operator_hex
+#print axioms eexec_closed_at_end
+#print axioms exSafe
+#print axioms exSafe3
 
 end PsVerif.Props.C05
